@@ -14,7 +14,9 @@ func decodeCustomSection(r *bytes.Reader, name string, limit uint64) (result *wa
 		return
 	}
 	buf := make([]byte, limit)
-	_, err = r.Read(buf)
+	if limit > 0 { // Read on an empty buffer at the end of input returns io.EOF.
+		_, err = r.Read(buf)
+	}
 
 	result = &wasm.CustomSection{
 		Name: name,
